@@ -45,6 +45,12 @@ Definition abs_ty (t : cty) : aty :=
 Definition args_nonempty (a : option (list garg)) : bool := match a with Some (_ :: _) => true | _ => false end.
 Definition args_angle (a : option (list garg)) : bool := match a with Some _ => true | None => false end.
 Definition first_is_type (a : option (list garg)) : bool := match a with Some (GType :: _) => true | _ => false end.
+(* non-empty and lifetimes only: Request<'_>, Request<'a> *)
+Definition args_life_only (a : option (list garg)) : bool :=
+  match a with
+  | Some (g :: l) => forallb (fun x => match x with GLife => true | GType => false end) (g :: l)
+  | _ => false
+  end.
 
 (* command_parser.rs:131 *)
 Definition last_seg_rule (n : ntag) (args : option (list garg)) : bool :=
@@ -52,6 +58,7 @@ Definition last_seg_rule (n : ntag) (args : option (list garg)) : bool :=
   | NAppHandle | NWebviewWindow => true
   | NChannel => args_angle args                (* matches!(arguments, AngleBracketed(_)) *)
   | NState | NWindow => args_nonempty args     (* !arguments.is_empty() *)
+  | NRequest => args_life_only args            (* repair C04-3-request-with-lifetime: Request only with its lifetime *)
   | _ => false
   end.
 Definition is_injected (t : aty) : bool :=
